@@ -189,20 +189,27 @@ def run_shard(spec):
                 continue
             src = A.render(prog)
             if spec['tier'] == 'quick':
-                observe(res, src, idioms.CAPTURE_ARGS[k % 2], 2 + (k // 2) % 3, tag)
+                observe(res, src, idioms.CAPTURE_ARGS[k % 2], (2, 3, 4, 8)[(k // 2) % 4], tag)
             else:
                 for args in idioms.CAPTURE_ARGS:
-                    for word in (2, 3, 4):
+                    for word in (2, 3, 4, 8):
                         observe(res, src, args, word, tag)
                 if (k // spec['parts']) % 6 == 0:
                     sweep(res, src, idioms.CAPTURE_ARGS[0], 2, tag, False)
         for k, (tag, prog) in enumerate(list(idioms.capture_scalar_programs()) + list(idioms.narrowing_programs())):
             if k % spec['parts'] == spec['part']:
                 for args in (idioms.NARROW_ARGS[k % 6:][:1] if spec['tier'] == 'quick' else idioms.NARROW_ARGS):
-                    observe(res, A.render(prog), args, 2 + k % 3, tag)
+                    observe(res, A.render(prog), args, (2, 3, 4, 8)[k % 4], tag)
+        # arrays of every element type at every word size (index scaling, table sharing, bit-vectors): reads and writes stay inside their own object
+        more = [(t, p, idioms.TABLE_ARGS) for t, p in idioms.table_programs()] + [(t, p, idioms.BITVECTOR_ARGS[:1]) for t, p in idioms.bitvector_programs()] + \
+               [(t, p, idioms.FRESH_ARGS[:1]) for t, p in idioms.fresh_literal_programs()] + [(t, p, idioms.NEIGHBOUR_ARGS[:1]) for t, p in idioms.global_neighbour_programs()]
+        for k, (tag, prog, argsets) in enumerate(more):
+            if k % spec['parts'] == spec['part']:
+                for word in (2, 3, 4, 8):
+                    observe(res, A.render(prog), argsets[0], word, tag)
         for k, (tag, prog, args) in enumerate(idioms.entry_programs()):
             if k % spec['parts'] == spec['part']:
-                for word in ((2 + k % 3,) if spec['tier'] == 'quick' else (2, 3, 4)):
+                for word in (((2, 3, 4, 8)[k % 4],) if spec['tier'] == 'quick' else (2, 3, 4, 8)):
                     observe(res, A.render(prog), args, word, tag)
         return res
     if spec['kind'] == 'templates':
